@@ -18,7 +18,7 @@ def depslib_trusted():
             "Model/DepsReplay.guess is untrusted: acceptance re-runs Model/Deps.run on the guessed schedule"]
 
 
-def contention(ctx, parts=("contend", "generic", "names", "invalid")):
+def contention(ctx, parts=("contend", "generic", "names", "invalid", "custom", "verbose")):
     """C01 under contention: a lost update in the registry only shows when several goroutines miss
     the same fresh key at the same instant (oracle only; the theorem side is C01_at_most_once)."""
     binp = os.path.join(ctx.tmp, "bin_depsrun")
@@ -46,6 +46,18 @@ def contention(ctx, parts=("contend", "generic", "names", "invalid")):
     if "names" in parts and r.get("name_prefix") and r["name_prefix"] != [1, 1, 1, 1, 0]:
         ctx.violation({"kind": "oracle", "oracle": "C01", "clauses": ["functions whose names are prefixes of one another (NmBuild/NmBuildAll, NmF1/NmF10) ran %s times (last number: calls that returned before the dependency they name had run), each must run exactly once and before its caller goes on" % r["name_prefix"]]},
                       case={"call": "mg.Deps(NmBuildAll, NmF10); mg.Deps(NmBuild, NmF1)"})
+    ctx.coverage["custom_fn_probe"] = r.get("custom_fn")
+    if "custom" in parts and (r.get("custom_fn") or {}).get("bad"):
+        ctx.violation({"kind": "oracle", "oracle": "C01", "clauses": ["user-implemented mg.Fn values with different (Name, ID) pairs are treated as one dependency, or one pair runs twice: %s" % "; ".join(r["custom_fn"]["bad"][:4])]},
+                      case={"call": "mg.Deps/CtxDeps/SerialDeps/SerialCtxDeps over custom mg.Fn values (harness/depsrun/contend.go customProbe)", "bad": r["custom_fn"]["bad"]})
+    if "verbose" in parts and "VPROBE-BEGIN" in err:
+        seg = err.split("VPROBE-BEGIN", 1)[1].split("VPROBE-END", 1)[0]
+        lines = [l for l in seg.splitlines() if "Running dependency:" in l]
+        late, early = sum("VpLate" in l for l in lines), sum("VpEarly" in l for l in lines)
+        ctx.coverage["verbose_late_probe"] = {"late": late, "early": early}
+        if late != 1 or early != 0:
+            ctx.violation({"kind": "oracle", "oracle": "C01", "clauses": ["MAGEFILE_VERBOSE=1 exported after a first dependency ran unverbosely (what a compiled magefile given -v does after init()): 'Running dependency:' printed %d times for the dependency executed afterwards (must be 1) and %d times for the one that had already run (must be 0)" % (late, early)]},
+                          case={"call": "unset MAGEFILE_VERBOSE; mg.Deps(VpEarly); MAGEFILE_VERBOSE=1; mg.Deps(VpLate, VpEarly)", "stderr": seg[-600:]})
     if "contend" in parts and r["not_once"]:
         ctx.violation({"kind": "oracle", "oracle": "C01", "clauses": ["under contention %d of %d fresh dependencies requested by %d goroutines at once did not run exactly once (executions per key: %s)"
                                                                        % (len(r["not_once"]), r["keys"], gor, dict(list(r["not_once"].items())[:5]))]}, case=spec)
